@@ -217,6 +217,20 @@ def EagerHandles (r : Reader) : Bool :=
     all opened during construction. -/
 def EagerTrace (construct later : List Name) : Bool := later.all construct.contains
 
+/-- `_reader`'s choice of reader class -/
+def assemble (schema generation : Nat) : List SegReader → Reader
+  | [] => .empty schema
+  | [r] => .single r
+  | rs => .multi rs (some generation)
+
+/-- the reader a successful `SegmentReader(...)` call produces -/
+def freshSeg (eager : Name → Bool) (fs : FS) (schema generation : Nat) (seg : SegRef) : SegReader :=
+  ⟨seg, some generation, schema,
+    (seg.files.filter eager).filterMap fun f => (fs.dir f).map fun i => (f, i)⟩
+
+def freshReader (eager : Name → Bool) (fs : FS) (t : Toc) : Reader :=
+  assemble t.schema t.gen (t.segs.map (freshSeg eager fs t.schema t.gen))
+
 /-! ### `ix.reader()` step by step, interleaved with writer events -/
 
 /-- the files `ix.reader()` opens for TOC `t`, in order -/
@@ -270,6 +284,79 @@ def LatestReadable (ix : Name) (fs : FS) : Prop := ∀ t, readToc ix fs = .ok t 
 /-- what an atomic open at `fs` pins -/
 def pinned (eager : Name → Bool) (fs : FS) (t : Toc) : List (Name × Nat) :=
   (needed eager t).filterMap fun f => (fs.dir f).map fun i => (f, i)
+
+/-! ### `ix.reader(reuse=old)` (what `Searcher.refresh()` calls) step by step
+
+The same loop with recycling: per segment of the TOC either the recycled sub-reader is taken over
+(no storage access) or the segment's files are opened one at a time; a missing file sends the call
+back to re-read the TOC, *with the recycled reader intact* (see the `fix:` commit about the
+`finally` clause of `_reader`). -/
+
+inductive RRefresh where
+  | start (retries : Nat)
+  /-- about to handle the next segment of `rest`; `acc` = sub-readers built so far -/
+  | segs (retries : Nat) (t : Toc) (acc : List SegReader) (dict : List (Name × SegReader))
+      (rest : List SegRef)
+  /-- opening the files of `seg` -/
+  | files (retries : Nat) (t : Toc) (acc : List SegReader) (dict : List (Name × SegReader))
+      (seg : SegRef) (todo : List Name) (got : List (Name × Nat)) (rest : List SegRef)
+  | done (t : Toc) (r : Reader)
+  | failed (e : RErr)
+  deriving Repr
+
+def retryOr (n : Nat) (e : RErr) : RRefresh := if n > 1 then .start (n - 1) else .failed e
+
+def xstep (eager : Name → Bool) (ix : Name) (old : Reader) (fs : FS) : RRefresh → RRefresh
+  | .start n =>
+    match readToc ix fs with
+    | .ok t => .segs n t [] (mkReusable old.leaves) (carryOver t.segs old.leaves)
+    | .error .ioError => retryOr n (.toc .ioError)
+    | .error e => .failed (.toc e)
+  | .segs _ t acc _ [] => .done t (assemble t.schema t.gen acc)
+  | .segs n t acc d (s :: rest) =>
+    match lookupSid d s.sid with
+    | some x =>
+      if x.gen.isNone then .segs n t (acc ++ [x]) (eraseSid d s.sid) rest
+      else if sameSet x.seg.deleted s.deleted then
+        .segs n t (acc ++ [{ x with schema := t.schema, gen := some t.gen }]) (eraseSid d s.sid) rest
+      else .files n t acc d s (s.files.filter eager) [] rest
+    | none => .files n t acc d s (s.files.filter eager) [] rest
+  | .files n t acc d s [] got rest => .segs n t (acc ++ [⟨s, some t.gen, t.schema, got⟩]) d rest
+  | .files n t acc d s (f :: todo) got rest =>
+    match fs.dir f with
+    | some i => .files n t acc d s todo (got ++ [(f, i)]) rest
+    | none => retryOr n .io
+  | s => s
+
+def xmstep (eager : Name → Bool) (ix : Name) (old : Reader) (s : FS × RRefresh) : MStep → FS × RRefresh
+  | .w e => (step s.1 e, s.2)
+  | .r => (s.1, xstep eager ix old s.1 s.2)
+
+def xmrun (eager : Name → Bool) (ix : Name) (old : Reader) (s : FS × RRefresh) (ms : List MStep) :
+    FS × RRefresh :=
+  ms.foldl (xmstep eager ix old) s
+
+/-- `Searcher.refresh()` as a whole: first the up-to-date check
+    (`self._ix.latest_generation() == self.reader().generation()`, which returns the same
+    searcher), then `ix.reader(reuse=self.ixreader)`; writer events may fall between the two. -/
+inductive SRefresh where
+  | check (retries : Nat)
+  | same                      -- `return self`
+  | run (x : RRefresh)
+  deriving Repr
+
+def sstep (eager : Name → Bool) (ix : Name) (old : Reader) (fs : FS) : SRefresh → SRefresh
+  | .check n => if upToDate ix fs old then .same else .run (.start n)
+  | .same => .same
+  | .run x => .run (xstep eager ix old fs x)
+
+def smstep (eager : Name → Bool) (ix : Name) (old : Reader) (s : FS × SRefresh) : MStep → FS × SRefresh
+  | .w e => (step s.1 e, s.2)
+  | .r => (s.1, sstep eager ix old s.1 s.2)
+
+def smrun (eager : Name → Bool) (ix : Name) (old : Reader) (s : FS × SRefresh) (ms : List MStep) :
+    FS × SRefresh :=
+  ms.foldl (smstep eager ix old) s
 
 /-- the directory after the first `k` steps of the merged schedule -/
 def fsAt (fs0 : FS) (ms : List MStep) (k : Nat) : FS := run fs0 (wevents (ms.take k))
